@@ -1,8 +1,8 @@
 #!/bin/sh
 # C19, memory-safety sentence (validation, not proof): run the `buffer` harness domain — the same
 # runner, generator and property oracle as the native harness — and samples of the request files of
-# the other checks' domains that are pure Rust (`packer`, `huffman`, `packet6`, `packet7`, `snap`,
-# `teehist`, `demo`, `datafile`; see tools/c19_miri_select.py for what is left out and why) under
+# all other checks' domains except `map` (see tools/c19_miri_select.py for what is left out and why:
+# C/C++ behind FFI, hash-form sweeps, long inputs) under
 # Miri, comparing every output line with the Lean model's.
 #
 #   tools/c19_miri.sh [seed]     (VERIF_REPO selects the repository, default /repo; seed default
@@ -12,7 +12,7 @@
 # Prints one line `MIRI-VERDICT …`, writes evidence/C19-miri.json, and exits non-zero iff Miri
 # (Tree Borrows) reports undefined behaviour, or an output line differs from the model's, or a
 # property oracle fails, or a run does not finish.  Wall time about 10–12 min on a quiet machine (the
-# nine runs are parallel; the `buffer` one dominates).
+# eighteen runs are parallel; the `buffer` one dominates).
 set -u
 cd "$(dirname "$0")/.."
 REPO=${VERIF_REPO:-/repo}
@@ -23,7 +23,7 @@ mkdir -p run
 H=harness/target/debug/tw-harness
 D=lean/.lake/build/bin/twdrv
 if [ ! -x "$H" ] || [ ! -x "$D" ]; then echo "MIRI-VERDICT not run: build first (./check C19 quick)"; exit 2; fi
-OTHERS="packer huffman packet6 packet7 snap teehist demo datafile"
+OTHERS="packer huffman packet6 packet7 snap teehist demo demohl datafile browse gamenet recv snapmgr snapmgrc conn6 conn7 net"
 DOMS="buffer $OTHERS"
 $H gen buffer miri "$SEED" > run/miri.buffer.req || exit 2
 for d in $OTHERS; do
@@ -60,13 +60,19 @@ cd ..
 python3 - "$SEED" "$REPO" "$((T1 - T0))" "$SB_RC" "$SBTB_RC" <<'PY'
 import json, re, sys
 seed, repo, secs, sb_rc, sbtb_rc = sys.argv[1:]
-doms = ["buffer", "packer", "huffman", "packet6", "packet7", "snap", "teehist", "demo", "datafile"]
+doms = ["buffer", "packer", "huffman", "packet6", "packet7", "snap", "teehist", "demo", "demohl", "datafile",
+        "browse", "gamenet", "recv", "snapmgr", "snapmgrc", "conn6", "conn7", "net"]
 NOT_COVERED = {
     "huffman": "operations that print the C++ reference's answer (rd, rc) and the hash sweeps; the reference itself is a stand-in",
     "snap": "pair/sweep (they consult the C++ snapshot reference through FFI)",
     "teehist": "`file` with a fragmentation other than whole (socket pair + writer thread: Miri reports the blocking read as a deadlock), bulk forms sweep/all2",
     "datafile": "every input that reaches read_data (zlib uncompress is C behind FFI): only files rejected by Reader::new are run; inflate/rt/openx/sweeps not run",
     "demo": "first sessions only; sweep/mutall not run",
+    "demohl": "first sessions only; mutall not run",
+    "browse": "hash-form sweeps (mfh, hc, hs)",
+    "gamenet": "hash-form sweeps (hobjpos, hbody)",
+    "recv": "first sessions only", "snapmgr": "first sessions only", "snapmgrc": "first sessions only",
+    "conn6": "first sessions only", "conn7": "first sessions only", "net": "first sessions only (sessions with sweep lines skipped)",
     "buffer": "hash-form sweeps, capacities above 4",
 }
 runs, bad = {}, []
@@ -103,8 +109,8 @@ except FileNotFoundError:
 sbm = re.search(r"Undefined Behavior: [^\n]*", sb)
 ev = {
     "property_id": "C19", "part": "memory-safety sentence (validation only)", "seed": int(seed), "repo": repo,
-    "tool": "cargo +nightly miri run (harness-miri: harness/src/d_{buffer,packer,huffman,packet6,packet7,snap,teehist,demo,datafile}.rs + the repository crates; the C++ huffman and snapshot references are replaced by stand-ins)",
-    "domains_not_runnable_under_miri": "map (reads datafiles: zlib FFI), and every operation listed under not_covered; the connection/net/recv/snapmgr/gamenet/browse domains are pure Rust but are not sampled here (time)",
+    "tool": "cargo +nightly miri run (harness-miri: every harness/src/d_*.rs except d_map.rs + the repository crates; the C++ huffman and snapshot references are replaced by stand-ins)",
+    "domains_not_runnable_under_miri": "map (its reader decompresses datafile items: zlib is C behind FFI), and every operation listed under not_covered",
     "flags": "-Zmiri-disable-isolation -Zmiri-tree-borrows", "wall_s": int(secs), "tree_borrows_runs": runs,
     "stacked_borrows_minimal_client": {"bin": "harness-miri/src/bin/sb_repro.rs", "exit": int(sb_rc),
                                        "first_report": sbm.group(0) if sbm else None,
@@ -117,8 +123,8 @@ with open("evidence/C19-miri.json", "w") as f:
 parts = []
 for d in doms:
     r = runs[d]
-    parts.append("%s: ub=%d requests=%s disagreements=%s oracle_fails=%s%s" % (
-        d, r["undefined_behavior_reports"], r.get("requests", "?"), r.get("disagreements", "?"), r.get("oracle_fails", "?"),
+    parts.append("%s %s req ub=%d diff=%s orc=%s%s" % (
+        d, r.get("requests", "?"), r["undefined_behavior_reports"], r.get("disagreements", "?"), r.get("oracle_fails", "?"),
         "" if r["finished"] else " DID-NOT-FINISH"))
 print("MIRI-VERDICT tree-borrows %s (%ss) | %s | stacked-borrows minimal client: exit=%s (aliasing report, see notes/buffer.md; tree-borrows exit=%s)" % (
     ev["verdict"], secs, " ; ".join(parts), sb_rc, sbtb_rc))
